@@ -241,6 +241,17 @@ def layout(a, how):
     raise ValueError(how)
 
 
+_NT = {}
+
+
+def named_tuple(values):
+    import collections
+    n = len(values)
+    if n not in _NT:
+        _NT[n] = collections.namedtuple('Record%d' % n, ['f%d' % i for i in range(n)])
+    return _NT[n](*values)
+
+
 def as_form(v, form, ints=False):
     v = np.asarray(v)
     if ints:
@@ -249,6 +260,8 @@ def as_form(v, form, ints=False):
         return v.tolist()
     if form == 'tuple':
         return tuple(v.tolist())
+    if form == 'ntuple':       # a record type of user code (collections.namedtuple): a tuple by isinstance, not by exact type
+        return named_tuple(v.tolist())
     if form == 'array':
         return np.array(v)
     if form == 'row':
